@@ -134,6 +134,28 @@ def r121(prog, rep, R121):
             rep.examined(R121, "%s|no-lookup" % p, sample={"fn": p.split("::")[-1], "range_lookups": 0, "min_calls": len(mins)})
 
 
+def threshold_tables(prog):
+    """{initializer path: [(start, end|'max', value)]} for the lazy RangeMap tables of the stage-1 analysis"""
+    res = {}
+    for p in sorted(prog.facts.bodies):
+        if not p.endswith("::__static_ref_initialize") or "syslogprocessor" not in p:
+            continue
+        ib = prog.body(p)
+        ents = []
+        for ic in ib.live_calls():
+            if "RangeMap" in ic.d and ic.d.endswith("::insert") and len(ic.args) == 3 and ic.args[2][0] == "k":
+                rng = []
+                for o in ib.origins(ic.args[1]):
+                    if o[0] == "agg":
+                        st_ = ib.stmts(o[1])[o[2]]
+                        rng = [ib.eval_int(a) for a in st_[2][2]]
+                if len(rng) == 2:
+                    ents.append((rng[0], "max" if rng[1] == 18446744073709551615 else rng[1], ic.args[2][2], ic.line))
+        if ents:
+            res[p] = ents
+    return res
+
+
 def partial_extent(prog, rep, R):
     """A partial Line (newline not found inside the block) must be able to extend to the end of the
     scanned block: the variable that gives the end index of the LinePart built in
